@@ -30,6 +30,32 @@ READ_ONLY_ENTRIES = ["list_file_basic", "list_file_verbose", "test_file_crc", "e
 O_WRONLY, O_CREAT, O_EXCL, O_TRUNC = 0o1, 0o100, 0o200, 0o1000
 
 
+FD_BASED = {"fchmod", "fchown", "futimens", "futimes", "ftruncate", "fdopen"}
+NEVER_FOLLOW = {"unlink", "unlinkat", "remove", "rename", "renameat", "symlink", "symlinkat", "mkdir", "mkdirat", "rmdir", "lchown", "lutimes", "mkfifo", "mknod",
+                "mkstemp", "mkdtemp", "tmpfile", "link", "linkat"}
+AT_SYMLINK_NOFOLLOW, O_NOFOLLOW = 0x100, 0o400000
+
+
+def _path_arg(what):
+    return 1 if what in ("utimensat", "fchmodat", "fchownat", "openat", "mkdirat", "unlinkat") else 0
+
+
+def _may_follow_link(c, what):
+    """can this libc call act on the target of a symbolic link found at the final component of its path argument?"""
+    if what in FD_BASED or what in NEVER_FOLLOW:
+        return False
+    if what in ("utimensat", "fchmodat", "fchownat"):
+        fl = c.ops[{"utimensat": 3, "fchmodat": 3, "fchownat": 4}[what]] if len(c.ops) > 3 else None
+        return not (fl is not None and is_const(fl) and const_val(fl) is not None and const_val(fl) & AT_SYMLINK_NOFOLLOW)
+    if what in ("open", "open64", "openat"):
+        fl = c.ops[2 if what == "openat" else 1] if len(c.ops) > 1 else None
+        if fl is not None and is_const(fl) and const_val(fl) is not None:
+            v = const_val(fl)
+            return not ((v & O_NOFOLLOW) or (v & O_CREAT and v & O_EXCL))
+        return True
+    return True
+
+
 def fopen_mode(mod, fn, call):
     M = Matcher(fn)
     if len(call.ops) < 2:
@@ -92,8 +118,25 @@ def run(tier, seed):
                           function=fn.cname, obj="fopen")
         # the arch mutators are exactly the functions of lha_arch_unix.c that contain mutators
         arch_found = {mod.functions[f].cname for f in mutating_fns if mod.functions[f].file.endswith("lha_arch_unix.c")}
-        rep.check(rid, arch_found == ARCH_MUTATORS, "arch-layer mutators are the six known wrappers", "lha_arch_unix.c",
+        rep.check(rid, ARCH_MUTATORS <= arch_found, "the six known arch-layer wrappers are where the mutators are", "lha_arch_unix.c",
                   "found %s" % sorted(arch_found), function="lha_arch_unix.c", obj="wrappers")
+        # a further wrapper in the arch layer is not by itself a violation (R1/R1b cover whatever reaches a mutator): classify what it
+        # calls.  Calls that cannot follow a symbolic link in the final path component (fd-based, l*/AT_SYMLINK_NOFOLLOW variants,
+        # creators that fail on an existing name) need nothing more; one that can makes the wrapper a link-following setter whose call
+        # sites are then held to R6c like utime/chmod/chown.
+        extra_following = {}
+        for f in sorted(mutating_fns):
+            fn = mod.functions[f]
+            if not fn.file.endswith("lha_arch_unix.c") or fn.cname in ARCH_MUTATORS:
+                continue
+            Mx = Matcher(fn)
+            for c, what in mutating_fns[f]:
+                fol = _may_follow_link(c, what)
+                if fol:
+                    a = fn.defn(Mx.strip(c.ops[_path_arg(what)], ("bitcast",))) if len(c.ops) > _path_arg(what) else None
+                    extra_following[fn.cname] = a.index if a is not None and a.is_param else 0
+                rep.ok(rid, "additional arch wrapper %s calls %s: %s" % (fn.cname, what, "may follow a symbolic link at the final component -> call sites held to R6c" if fol
+                       else "cannot follow a symbolic link at the final component"), None, c.where())
 
         # ---- R1: read-only commands ----------------------------------------------------------------------
         rid = rep.rule("R1", "no call path from a read-only command (l, v, t, dry run) to a filesystem mutator", 4)
@@ -364,6 +407,7 @@ def run(tier, seed):
         META = {"lha_arch_utime": 0, "lha_arch_chmod": 0, "lha_arch_chown": 0}
         for w in sorted(META):
             rep.need(rid, mod.fn(w), "function %s" % w)
+        META.update(extra_following)
         fwd = dict(META)                     # cname -> index of the forwarded path parameter
         changed = True
         while changed:
